@@ -49,7 +49,7 @@ def generate(seed: int, tier: str, idx: int) -> dict:
         start = int(s.randint(0, 2_000_000_000))
         ref = None
         if s.chance(0.6):
-            ref = start + s.randint(-10**8, 10**8)
+            ref = start + (s.randint(-10**8, 10**8) if s.chance(0.6) else s.randint(-3 * 10**9, 3 * 10**9))
         spell = s.pick(["int", "td64", "timedelta", "list_s", "iso"] + (["list_m"] if dt % 60 == 0 else [])
                        + (["list_h"] if dt % 3600 == 0 else []))
         return {"plan": {"kind": "clock", "start": start, "dt": dt, "nsteps": nst, "extra": extra, "reversed": rev,
